@@ -103,7 +103,10 @@ def run(eng: Engine, ck: Check):
     ck.ob('R-C02-ESCAPE', rl, rl.node, 'the reader loop runs until the connection is closing', ok, '', construct='reader loop condition')
     for r in [n for n in walk_local(rl.node) if isinstance(n, (ast.Return, ast.Break))]:
         gs = [(unparse(e), pol) for e, pol, _ in eng.guards_at(rl, r)]
-        ok = ('message', False) in gs or ('not message', True) in gs
+        # the local that receives the result of receive_message_object()
+        got = {unparse(n_.targets[0]) for n_ in walk_local(rl.node) if isinstance(n_, ast.Assign) and any(call_name(x_) == 'receive_message_object' for x_ in ast.walk(n_.value))}
+        ok = any((g_ in got and pol_ is False) for g_, pol_ in gs) or any(g_.startswith('not ') and g_[4:] in got and pol_ for g_, pol_ in gs) or \
+            any((cmp_atom(e_) or ('',))[0] == 'is' and unparse(cmp_atom(e_)[1]) in got and is_none_const(cmp_atom(e_)[2]) and pol_ for e_, pol_, _ in eng.guards_at(rl, r))
         ck.ob('R-C02-ESCAPE', rl, r, 'the loop is left only on EOF (no message; the connection was closed by _read)', ok, f'{gs}', construct='reader loop exit on EOF only')
     # ---- (4) callback containment
     pc = eng.func(CONN, 'DataConnection._perform_message_callback')
@@ -203,8 +206,7 @@ def run(eng: Engine, ck: Check):
                 ck.ob('R-C02-PARSER-TOTAL', f, n, f'{f.qualname}: loop is bounded (range(count) / field tuple / subclass list)', bounded, f'iterates `{it}`',
                       construct=f'{f.qualname} loop over {alpha_key(n.iter)}')
                 if isinstance(n.iter, ast.Call) and call_name(n.iter) == 'range' and f.module.rel == PRIM and f.name == 'deserialize':
-                    consumes = any(call_name(x) in ('func', 'deserialize') or 'deserialize' in unparse(x.func) for st in n.body for x in calls_in(st)) or \
-                        any(unparse(x.func) == 'func' for st in n.body for x in calls_in(st))
+                    consumes = any(call_name(x) == 'deserialize' or 'deserialize' in unparse(expand_aliases(f, x.func)) for st in n.body for x in calls_in(st))
                     ck.ob('R-C02-PARSER-TOTAL', f, n, f'{f.qualname}: every iteration parses an element (unpack_from raises at end of data, so a lying count cannot spin)',
                           consumes, 'loop body does not consume input', construct=f'{f.qualname} loop consumes')
     ck.floor('R-C02-PARSER-TOTAL', n_loops, 4)
